@@ -237,6 +237,14 @@ func (d *abciDriver) genTx(label string) plannedTx {
 	case 8:
 		// inflow into a distributor source through a plain bank send (fee collector is blocked; use base sources) or fees
 		to := KeyAcc(5 + rapid.IntRange(0, 2).Draw(t, label+"_to"))
+		if rapid.Bool().Draw(t, label+"_toModule") {
+			// a user addressing a module account the custom modules use (the application blocks them as
+			// recipients; whether the transfer is accepted is the application's wiring)
+			names := []string{distrtypes.DistributorMainAccount, distrtypes.DistributorMainAccount, distrtypes.DistributorMainAccount, "fee_collector", "cfevesting", "cfeminter", "governance_booster_collector", "validators_rewards_collector"}
+			ma := ModuleAddr(names[rapid.IntRange(0, len(names)-1).Draw(t, label+"_module")])
+			m := &banktypes.MsgSend{FromAddress: owner.Addr.String(), ToAddress: ma.String(), Amount: sdk.NewCoins(sdk.NewCoin(Denom, sdk.NewIntFromBigInt(genAmount(t, label+"_amt", 15, false))))}
+			return plannedTx{owner, []sdk.Msg{m}, "bank", "send_to_module_address", nil}
+		}
 		m := &banktypes.MsgSend{FromAddress: owner.Addr.String(), ToAddress: to.Addr.String(), Amount: sdk.NewCoins(sdk.NewCoin(Denom, sdk.NewIntFromBigInt(genAmount(t, label+"_amt", 15, false))))}
 		return plannedTx{owner, []sdk.Msg{m}, "bank", "send", nil}
 	case 9:
